@@ -12,6 +12,7 @@ open C06TimingModel
 open C06SinfModel
 open C06MultiModel
 open C06FixedModel
+open C06TrafTimingModel
 
 let e = C07Aes.aes128_encrypt
 let d = C07Aes.aes128_decrypt
@@ -351,6 +352,25 @@ let () =
         let box = bytes_of_hex data in
         let model = S.concat "|" (L.map (fun p -> res_string senc_state (senc_parse (n_of_int p) box)) [0; 8; 16; 5]) in
         check id "DecodeSenc + ParseReadBox" model obs
+      | ["N"; id; tfhd; trex; base; truns; obs] ->
+        let n s = n_of_int (int_of_string s) in
+        let opt s = if s = "-" then None else Some (n s) in
+        let th = match split_on '|' tfhd with
+          | [d; z; f] -> { th_dur = opt d; th_size = opt z; th_flags = opt f }
+          | _ -> failwith "bad tfhd" in
+        let tx = match split_on '/' trex with
+          | [d; z; f] -> { tx_dur = n d; tx_size = n z; tx_flags = n f }
+          | _ -> failwith "bad trex" in
+        let trs = L.map (fun x -> match split_on ':' x with
+            | [bits; doff; ff; samples] -> trun_of bits (n doff) (n ff) (tsamples_of samples)
+            | _ -> failwith ("bad trun " ^ x)) (if truns = "" then [] else split_on '#' truns) in
+        let one trexo =
+          let meta = traf_meta th trexo trs (n_of_hex base) in
+          "ok:" ^ (match meta with [] -> "-" | _ -> S.concat ";" (L.map (fun (s, t) -> tsample_string s ^ "@" ^ hex_of_n t) meta)) in
+        check id "GetFullSamples metadata, several truns" (one (Some tx) ^ "|" ^ one None) obs
+      | ["Z"; id; large; plen; obs] ->
+        let z = int_of_n (xbox_size (large = "1") (n_of_int (int_of_string plen))) in
+        check id "UnknownBox.Size / encoded length" (Printf.sprintf "ok:%d,%d" z z) obs
       | ["Y"; id; kind; entry; obs] ->
         let k = if kind = "v" then SVisual else SAudio in
         let model = res_string (fun (b, sd) -> hex_of_bytes b ^ "|" ^ sinf_d_string sd)
